@@ -770,6 +770,13 @@ def check_grad_opts(rep, rng, n):
                 opt.reset(theta0.copy())
                 th, m, v, t = theta0.astype(np.float64), np.zeros(dim), np.zeros(dim), 0
             g_in = g.copy()
+            if rng.random() < 0.2:
+                # a step() that raises (gradient None / not numeric) is not a step: the rule continues from where it was
+                try:
+                    opt.step(None if rng.random() < 0.5 else ["x"] * dim)
+                    rep.count("adam_bad_gradient_accepted")
+                except Exception:  # noqa
+                    rep.count("adam_rejected_steps")
             opt.step(g_in if rng.random() < 0.5 else g_in.tolist())
             th, m, v, t = U.adam_published(th, m, v, t, g, **hp)
             real = np.asarray(opt.theta, dtype=np.float64)
@@ -782,6 +789,11 @@ def check_grad_opts(rep, rng, n):
         th = theta0.astype(np.float64)
         rep.count("ga_sequences")
         for k, g in enumerate(grads):
+            if rng.random() < 0.2:
+                try:
+                    ga.step(None if rng.random() < 0.5 else ["x"] * dim)
+                except Exception:  # noqa
+                    rep.count("ga_rejected_steps")
             ga.step(g)
             th = U.ga_published(th, g, lr)
             real = np.asarray(ga.theta, dtype=np.float64)
@@ -993,6 +1005,41 @@ def check_explicit_batch(rep, rng):
                                    "case": {"strategy": name, "dtype": np.dtype(dt).name, "ctor_batch": b0, "ask_batch": K, "generation": g + 1}},
                                   True, {"kind": "evaluation-counter"})
                     return
+
+
+def check_slow_resampling(rep, rng):
+    """bounds that reject almost every draw (the mean sits in a corner of an 8-dimensional box: acceptance 2^-8 per row), so that the
+    resampling loops run for HUNDREDS of rounds (OpenAI-ES warns after 100): the returned rows are in bounds and, for OpenAI-ES without
+    mirror sampling, row i is still exactly theta + sigma0 * noise[i] of the recorded noise"""
+    import warnings
+    from ribs.emitters.opt import CMAEvolutionStrategy, OpenAIEvolutionStrategy
+    dim = 8
+    for cls, name, kw in ((OpenAIEvolutionStrategy, "openai_es", {"mirror_sampling": False}), (CMAEvolutionStrategy, "cma_es", {})):
+        dt = rng.choice([np.float64, np.float32])
+        lb, ub = np.zeros(dim, dtype=dt), np.full(dim, 4.0, dtype=dt)
+        corner = np.array([0.0 if rng.random() < 0.5 else 4.0 for _ in range(dim)], dtype=dt)
+        es = cls(sigma0=0.25, solution_dim=dim, batch_size=6, seed=rng.randrange(1 << 30), dtype=dt, lower_bounds=lb, upper_bounds=ub, **kw)
+        es.reset(corner.copy())
+        rep.count("slow_resampling_asks")
+        with warnings.catch_warnings():
+            warnings.simplefilter("ignore")
+            X = np.array(es.ask())
+        where = None
+        if X.shape != (6, dim) or not np.all((X >= lb) & (X <= ub)):
+            where = "rows outside the bounds"
+        elif name == "openai_es":
+            theta = np.asarray(es.adam_opt.theta)
+            rec = (theta[None] + es.sigma0 * np.asarray(es.noise)).astype(dt) if np.shape(es.noise) == (6, dim) else None
+            if rec is None or not np.array_equal(rec, X):
+                rows = [] if rec is None else [int(i) for i in np.where(np.any(rec != X, axis=1))[0]]
+                where = "solutions[i] != theta + sigma0*noise[i] for rows %s" % rows
+        if where:
+            rep.violation("%s with the mean in a corner of its bounds (hundreds of resampling rounds): %s" % (name, where),
+                          {"kind": "property", "broken": "C18 (what an optimizer records about a sample corresponds to the sample it returned; samples respect the bounds)",
+                           "case": {"strategy": name, "dtype": np.dtype(dt).name, "dim": dim, "batch": 6, "sigma0": 0.25, "theta": corner.tolist(),
+                                    "bounds": [0.0, 4.0]}, "solutions": X.tolist()}, True,
+                          {"kind": "openai-es-noise-bookkeeping" if name == "openai_es" else "ask-structure"})
+            return
 
 
 def check_pycma_ranking(rep, rng):
@@ -1219,6 +1266,7 @@ def check(rep, tier, seed, driver):
         guarded(lambda: check_pycma(rep, rng), 60)
         guarded(lambda: check_pycma_ranking(rep, rng), 60)
         guarded(lambda: check_explicit_batch(rep, rng), 60)
+        guarded(lambda: check_slow_resampling(rep, rng), 120)
     except _Hang:
         obs_fail.append({"observation": "pycma", "strategy": "pycma", "did_not_terminate_within_s": 60})
     strategies = ["pycma"] if _has_cma() else []
